@@ -19,6 +19,14 @@ PROFILES = ["clean", "dup", "reorder", "loss", "mixed"]
 
 
 def gen_case(seed: int, tier: str, index: int) -> Dict[str, Any]:
+    if index % 6 == 5:
+        from props import c03_t
+
+        return c03_t.gen_case(seed, tier, index // 6)
+    return _gen_case_a(seed, tier, index)
+
+
+def _gen_case_a(seed: int, tier: str, index: int) -> Dict[str, Any]:
     rng = random.Random(mix(seed, "c03.case"))
     profile = PROFILES[index % len(PROFILES)]
     snaps = snapshot_files()
@@ -179,6 +187,10 @@ async def scenario(world: WorldA) -> None:
 
 
 def run_case(case: Dict[str, Any], replay: Optional[Dict[str, Any]] = None, keep_log: bool = False) -> RunResult:
+    if case.get("world") == "T":
+        from props import c03_t
+
+        return c03_t.run_case(case, replay, keep_log)
     world = WorldA(case, replay, keep_log=keep_log)
     return world.run(scenario)
 
@@ -205,7 +217,7 @@ ASSUMPTIONS = [
     "for temperature items 'changed' means the stored word changed; the passed values are only required to differ",
     "coverage of update geometries is measured (probe table), not asserted",
 ]
-PROBES = ["several_observers_on_one_item", "reentrant_unwatch_all", "reentrant_unwatch_self", "reentrant_unwatch_next", "update_aimed_at_item", "straddling_update_notified", "silent_although_bytes_changed", "duplicate_update", "a_b_a", "watched_twice", "unwatched", "unwatch_all"]
+PROBES = ["observer_blocked_in_callback", "unwatch_from_client_thread", "unwatch_all_from_client_thread", "registration_changed_during_an_update", "several_observers_on_one_item", "reentrant_unwatch_all", "reentrant_unwatch_self", "reentrant_unwatch_next", "update_aimed_at_item", "straddling_update_notified", "silent_although_bytes_changed", "duplicate_update", "a_b_a", "watched_twice", "unwatched", "unwatch_all"]
 N_QUICK = 1020
 
 
@@ -225,5 +237,13 @@ def job_cases(job, tier: str, base_seed: int):
 
     for i in range(job["first"], job["first"] + job["count"]):
         c = gen_case(run_seed(PROP, base_seed, i), tier, i)
-        c["subspace"] = "seeded:" + c["cfg"]["profile"]
+        c["subspace"] = "seeded:" + c["cfg"].get("profile", "threads")
         yield c
+
+
+def selftest_case(base_seed: int, tier: str, index: int):
+    """Determinism self-test: every third index is a World T (threads) case."""
+    from sim.driver import run_seed
+
+    i = 6 * (index // 3) + 5 if index % 3 == 2 else index
+    return gen_case(run_seed(PROP, base_seed, i), tier, i)
